@@ -131,6 +131,17 @@ func getIdent(reader api.TcpReader, methodFrame *MethodFrame) (ident string) {
 	return
 }
 
+// representTableValue renders one value of a field table: strings as they
+// are, every other type of value (numbers, booleans, nested tables, arrays,
+// null) as its JSON text.
+func representTableValue(value interface{}) string {
+	if v, ok := value.(string); ok {
+		return v
+	}
+	marshaled, _ := json.Marshal(value)
+	return string(marshaled)
+}
+
 func representProperties(properties map[string]interface{}, rep []interface{}) ([]interface{}, string, string) {
 	contentType := ""
 	contentEncoding := ""
@@ -292,7 +303,7 @@ func representBasicPublish(event map[string]interface{}) []interface{} {
 		for name, value := range properties["headers"].(map[string]interface{}) {
 			headers = append(headers, api.TableData{
 				Name:     name,
-				Value:    value.(string),
+				Value:    representTableValue(value),
 				Selector: fmt.Sprintf(`request.properties.headers["%s"]`, name),
 			})
 		}
@@ -454,7 +465,7 @@ func representQueueDeclare(event map[string]interface{}) []interface{} {
 		for name, value := range event["arguments"].(map[string]interface{}) {
 			headers = append(headers, api.TableData{
 				Name:     name,
-				Value:    value.(string),
+				Value:    representTableValue(value),
 				Selector: fmt.Sprintf(`request.arguments["%s"]`, name),
 			})
 		}
@@ -553,7 +564,7 @@ func representExchangeDeclare(event map[string]interface{}) []interface{} {
 		for name, value := range event["arguments"].(map[string]interface{}) {
 			headers = append(headers, api.TableData{
 				Name:     name,
-				Value:    value.(string),
+				Value:    representTableValue(value),
 				Selector: fmt.Sprintf(`request.arguments["%s"]`, name),
 			})
 		}
@@ -770,7 +781,7 @@ func representQueueBind(event map[string]interface{}) []interface{} {
 		for name, value := range event["arguments"].(map[string]interface{}) {
 			headers = append(headers, api.TableData{
 				Name:     name,
-				Value:    value.(string),
+				Value:    representTableValue(value),
 				Selector: fmt.Sprintf(`request.arguments["%s"]`, name),
 			})
 		}
@@ -834,7 +845,7 @@ func representBasicConsume(event map[string]interface{}) []interface{} {
 		for name, value := range event["arguments"].(map[string]interface{}) {
 			headers = append(headers, api.TableData{
 				Name:     name,
-				Value:    value.(string),
+				Value:    representTableValue(value),
 				Selector: fmt.Sprintf(`request.arguments["%s"]`, name),
 			})
 		}
